@@ -356,6 +356,17 @@ class Oracle:
                 names = sorted({e['mismatched_field'] for e in errs})
                 self.viol('verdict/failed-but-satisfied/%s/%s/%s' % (field_class(names[0]) if names else 'no-error', mode, lk),
                           'evaluate() failed (errors about %r) although every specified field is satisfied' % (names,), pol, peer)
+        # 1b. a listed size can only be "equal" when it was measured: a type the peer advertises, with a listed size, but without a measurement
+        if fresh and pol['hostkey_sizes'] is not None:
+            for t in pol['hostkey_sizes']:
+                if t in peer['key'] and t not in peer['host_keys'] and not any(e['mismatched_field'].startswith('Host key (%s)' % t) for e in errs):
+                    self.viol('size-not-measured/host-key', 'the policy lists a size for host key %r, the peer advertises it, no size was measured, and evaluate() raises no error about it' % t, pol, peer)
+                    break
+        if fresh and pol['dh'] is not None:
+            for t in pol['dh']:
+                if t in peer['kex'] and t not in peer['dh'] and not any(('(%s)' % t) in e['mismatched_field'] for e in errs):
+                    self.viol('size-not-measured/modulus', 'the policy lists a modulus size for %r, the peer offers it, no modulus was measured, and evaluate() raises no error about it' % t, pol, peer)
+                    break
         # 2. passed <-> no errors (fresh accumulator)
         if fresh and passed != (len(errs) == 0):
             self.viol('verdict-vs-errors/%s' % ('passed-with-errors' if passed else 'failed-without-errors'),
